@@ -147,4 +147,17 @@ theorem remote_account_functions_change_nothing (f : FnId)
   · exact (frame_claimDeveloperRewards env c ctx _ (r _ _)).elim h a (.key k) (by simp [acctFootprint])
   · exact (frame_setUserName env c ctx _ (r _ _)).elim h a (.key k) (by simp [acctFootprint])
 
+/-- FULL (binding, regenerated from the source by go/ast on every run): the role literal each function passes to
+    `CheckAllowedToExecute` is the one `role_gate` assigns to it (create checks the create role, then — for quantity > 1 —
+    the add-quantity role) -/
+theorem role_checks_as_in_code : Facts.roleChecks =
+    [("esdtLocalBurn", "ESDTRoleLocalBurn"),
+     ("esdtLocalMint", "ESDTRoleLocalMint"),
+     ("esdtNFTAddQuantity", "ESDTRoleNFTAddQuantity"),
+     ("esdtNFTAddUri", "ESDTRoleNFTAddURI"),
+     ("esdtNFTBurn", "ESDTRoleNFTBurn"),
+     ("esdtNFTCreate", "ESDTRoleNFTCreate"),
+     ("esdtNFTCreate", "ESDTRoleNFTAddQuantity"),
+     ("esdtNFTupdate", "ESDTRoleNFTUpdateAttributes")] := by decide
+
 end C03
